@@ -203,7 +203,22 @@ def write_pin(path, table):
             fh.write("\t".join(fmt_cell(v) for v in r) + "\n")
 
 
-def write_parquet(path, table, row_group_size=None, dict_strings=False):
+def with_range_index_metadata(tbl, start):
+    """The same Arrow table carrying the metadata pandas stores when a frame whose RangeIndex starts at `start` is
+    written (`df.iloc[start:].to_parquet(...)`)."""
+    import json
+
+    import pyarrow as pa
+
+    pdf = tbl.slice(0, 0).to_pandas()
+    meta = json.loads(pa.Table.from_pandas(pdf).schema.metadata[b"pandas"].decode())
+    meta["index_columns"] = [{"kind": "range", "name": None, "start": int(start), "stop": int(start) + tbl.num_rows, "step": 1}]
+    md = dict(tbl.schema.metadata or {})
+    md[b"pandas"] = json.dumps(meta).encode()
+    return tbl.replace_schema_metadata(md)
+
+
+def write_parquet(path, table, row_group_size=None, dict_strings=False, index_start=0):
     """dict_strings: string columns are stored dictionary-typed (what pandas writes for a Categorical column and what
     many Arrow-based tools write for low-cardinality strings)."""
     import pyarrow as pa
@@ -227,15 +242,17 @@ def write_parquet(path, table, row_group_size=None, dict_strings=False):
         if dict_strings and typ == pa.string() and len(set(vals)) <= max(4, len(vals) // 10):
             arrays[c] = arrays[c].dictionary_encode()  # low-cardinality strings only (file names, not identifiers)
     tbl = pa.table(arrays)
+    if index_start:
+        tbl = with_range_index_metadata(tbl, index_start)
     kw = {}
     if row_group_size:
         kw["row_group_size"] = int(row_group_size)
     pq.write_table(tbl, path, **kw)
 
 
-def write_table(path, table, row_group_size=None, dict_strings=False):
+def write_table(path, table, row_group_size=None, dict_strings=False, index_start=0):
     if str(path).endswith(".parquet"):
-        write_parquet(path, table, row_group_size, dict_strings=dict_strings)
+        write_parquet(path, table, row_group_size, dict_strings=dict_strings, index_start=index_start)
     else:
         write_pin(path, table)
 
